@@ -1,4 +1,6 @@
 #!/bin/sh
+# evidence / replay files of runs on a patched tree go to a scratch directory, never to /verif/evidence
+XMC_EVIDENCE_DIR=${XMC_EVIDENCE_DIR:-/tmp/patched_ev}; XMC_REPLAY_DIR=${XMC_REPLAY_DIR:-/tmp/patched_ev}; export XMC_EVIDENCE_DIR XMC_REPLAY_DIR; mkdir -p /tmp/patched_ev
 # usage: with_patch.sh [-R] <patch> -- <command...>
 # applies <patch> (reversed with -R) to /repo's working tree, runs the command, then restores the tree
 # (also when interrupted).
